@@ -4,7 +4,7 @@
    src/pydrobert/speech/*.py on every run. *)
 From Coq Require Import String.
 From Coq Require Import ZArith List Bool.
-From Verif Require Import C08.Model C08.ProofsMachine C08.ProofsTree C08.ProofsBuild C08.ProofsNested C08.ProofsRegistry.
+From Verif Require Import C08.Model C08.HeapModel C08.ProofsMachine C08.ProofsTree C08.ProofsBuild C08.ProofsNested C08.ProofsHeap C08.ProofsRegistry.
 From Verif Require Import gen.C08_Registry.
 Import ListNotations.
 Local Open Scope string_scope.
@@ -225,3 +225,29 @@ Theorem nested_build_eq :
     from_arg r (cfg_depth g + f) fam (to_json g) = Ok v.
 Proof. exact nested_build_eq_l. Qed.
 Print Assumptions nested_build_eq.
+
+(* ---- the mapping that is passed in is never modified (HeapModel.v: mutable,
+        shareable objects passed by reference; any heap, any registry) ---- *)
+
+(* after the call the store is the store before it plus newly allocated objects *)
+Theorem from_arg_preserves_heap :
+  forall r f fam arg h res h',
+    hfrom_arg r f fam arg h = (res, h') -> exists ext, h' = (h ++ ext)%list.
+Proof. exact from_arg_preserves_heap_l. Qed.
+Print Assumptions from_arg_preserves_heap.
+
+(* in particular every mapping, list and instance that existed is what it was -
+   the argument, the mappings nested in it, anything sharing structure with it *)
+Theorem from_arg_never_modifies_existing_objects :
+  forall r f fam arg h res h' a o,
+    hfrom_arg r f fam arg h = (res, h') -> hget h a = Some o -> hget h' a = Some o.
+Proof. exact from_arg_preserves_objects_l. Qed.
+Print Assumptions from_arg_never_modifies_existing_objects.
+
+(* an instance comes back as the same reference, and nothing is allocated *)
+Theorem from_arg_instance_same_reference :
+  forall r f fam a h c fs,
+    hget h a = Some (OInst c fs) -> is_subclass (r_tree r) c fam = true ->
+    hfrom_arg r (S f) fam (HRef a) h = (Ok (HRef a), h).
+Proof. exact from_arg_instance_same_ref_l. Qed.
+Print Assumptions from_arg_instance_same_reference.
